@@ -184,6 +184,8 @@ class SDFS(SubFS):
             mode += 'b'
         if 't' in mode:
             raise NotImplementedError('text mode is not supported')
+        # a sub-directory view passes the text-mode option of its own open() along; binary files do not take it
+        options.pop('line_buffering', None)
         # noinspection PyTypeChecker
         return self.openbin(path, mode, buffering, **options)
 
